@@ -599,11 +599,9 @@ def gen_cases(seed, tier, shard, nshards):
             sig('SX', 'cross-65536', len(key), n))
     # thorough tier: one single call of 2^32 + d bytes (>= 2^28 blocks inside
     # one accelerated call), then short calls on the same stream
-    if shard == 1 and tier != 'quick':
-        key = rbytes(rnd, 32)
-        extra = 16 * rnd.randrange(1, 40) + rnd.randrange(16)
-        add('ctr', 'G 0 %s %d %d' % (key.hex(), rand_nonce(rnd), extra), '',
-            sig('G', 'one-call-4GiB', extra))
+    # (thorough tier: one single AES-CTR call of 2^32 + d bytes, then short
+    # calls on the same stream - see aes_huge_case(); it runs as separate tasks,
+    # one per distinct AES situation, beside the shards)
     # far-offset streams (verification hook crypto_aesctr_verif_seek): the
     # stream is moved to block 2^e - d, e in FAR_EXPS, d in FAR_DS, and the
     # calls then cross block 2^e as one bulk call / sub-block calls / bulk
@@ -785,7 +783,7 @@ def run_variants(variants, cases, timeout=1200):
     # answers to the single calls of 2^32+d bytes (`W` lines), for the
     # comparison across the variants that ran them in separate tasks
     res['huge_answers'] = [(cases[i]['line'], base[i][0], base[i][1]) for i in sorted(base)
-                           if i < len(cases) and cases[i]['line'].startswith('W ')]
+                           if i < len(cases) and cases[i]['line'].startswith(('W ', 'G '))]
     return res
 
 
@@ -812,6 +810,29 @@ def huge_cases(seed, tier):
     crc = [case('crc32c', 'one', exp), case('crc32c', 'gib', exp)]
     sha = [case('sha256', 'one', huge_value('sha256', blk, al, d))] if tier != 'quick' else []
     return crc, sha
+
+
+def aes_huge_case(seed):
+    """One crypto_aesctr_stream call of 2^32 + d bytes (>= 2^28 blocks inside one
+    accelerated call), then calls of 7, 16 and 77 bytes on the same stream; the
+    driver answers the last 4096 bytes of the big call and the 100 bytes after
+    it, library and reference."""
+    rnd = random.Random(seed ^ 0xAE5)
+    key = rbytes(rnd, 32)
+    extra = 16 * rnd.randrange(1, 40) + rnd.randrange(16)
+    return {'kind': 'ctr', 'line': 'G 0 %s %d %d' % (key.hex(), rand_nonce(rnd), extra), 'expect': '',
+            'sig': sig('G', 'one-call-4GiB', extra), 'nt': True}
+
+
+def aes_huge_plan(variants):
+    """One variant per distinct AES situation (path selected, self-test made to fail)."""
+    seen, out = set(), []
+    for v in variants:
+        k = (v['expect']['aes'], tuple(f for f in v['fails'] if 'aes' in f))
+        if k not in seen:
+            seen.add(k)
+            out.append(v['name'])
+    return out
 
 
 def huge_plan(variants, tier):
@@ -853,6 +874,8 @@ def huge_finish(ctx, hres):
             by_line.setdefault(line, {}).setdefault(ans, []).append(vname)
     for line, groups in by_line.items():
         t = line.split()
+        if t[0] == 'G':         # the AES-CTR call: ['G', al, key, nonce, extra]
+            t = ['W', t[1], 'aesctr', 'one', t[4]]
         ctx.count('single_call_2^32_%s_%s_answers' % (t[2], t[3]), sum(map(len, groups.values())))
         if len(groups) > 1:
             g = sorted(groups.items(), key=lambda kv: -len(kv[1]))
@@ -1159,6 +1182,9 @@ def run(ctx):
     svn = {v['name']: v for v in sv}
     huges = [('W', (svn[name], [c])) for name, one, gib, s in huge_plan(variants, ctx.tier)
              for c in hcrc[:1] * one + hcrc[1:] * gib + hsha * s]      # one process per line
+    if ctx.tier != 'quick':
+        gcase = aes_huge_case(ctx.seed)
+        huges += [('W', (svn[name], [gcase])) for name in aes_huge_plan(variants)]
     allres = core.pmap(_task, huges + ooms + [('S', (sv, seeds[i], ctx.tier, i, n)) for i in range(n)])
     hres, allres = allres[:len(huges)], allres[len(huges):]
     oomres, res = allres[:len(ooms)], allres[len(ooms):]
